@@ -89,6 +89,10 @@ SHARED = {
     "child": "{% extends 'base' %}{% block b %}c{{ x|tag }}{{ super() }}{% endblock %}",
     "base": "B({% block b %}b{{ g }}{{ x|tag }}{% endblock %})",
     "undef": "{{ nope }}|{{ nope|default('d') }}|{{ x|tag }}",
+    # module state that survives between renders of one environment (the imported module is cached with its template)
+    "cntlib": "{% set ns = namespace(n=0) %}{% macro tick() %}{% set ns.n = ns.n + 1 %}{{ ns.n }}{% endmacro %}",
+    "cnt": "{% import 'cntlib' as c %}{{ c.tick() }}{{ c.tick() }}|{% include 'cntinc' %}",
+    "cntinc": "{% from 'cntlib' import tick %}{{ tick() }}",
 }
 
 
@@ -217,7 +221,62 @@ def grow_shard(arg):
     return p
 
 
+def multipath_shard(arg):
+    """ModuleLoader over several compiled directories / archives: the first path that has the template wins, exactly
+    like a ChoiceLoader over the corresponding source loaders; every subset assignment of 3 templates to 2-3 layers"""
+    import itertools
+
+    import jinja2
+
+    zmode = arg
+    p = core.Part()
+    root = core.scratch_dir("c31m")
+    names = ("page", "part", "lib")
+    # layer directory names chosen so that priority order is NOT alphabetical order
+    layer_dirs = ("z_site", "m_theme", "a_base")
+
+    def src(layer, name):
+        body = {"page": "[{% include 'part' %}|{% import 'lib' as l %}{{ l.f() }}]", "part": "part", "lib": "{% macro f() %}lib{% endmacro %}"}[name]
+        return body.replace("part", "part@" + layer).replace("lib{", "lib@" + layer + "{") if name != "page" else "P@" + layer + body
+    count = 0
+    for nlayers in (2, 3):
+        layers = layer_dirs[:nlayers] if nlayers == 3 else (layer_dirs[0], layer_dirs[2])
+        # every assignment: each template is present in a non-empty subset of the layers
+        subsets = [c for r in range(1, nlayers + 1) for c in itertools.combinations(range(nlayers), r)]
+        for assign in itertools.product(subsets, repeat=len(names)):
+            count += 1
+            maps = [{} for _ in layers]
+            for name, present in zip(names, assign, strict=True):
+                for li in present:
+                    maps[li][name] = src(layers[li], name)
+            targets = []
+            for li, m in enumerate(maps):
+                t = os.path.join(root, f"c{count}", layers[li] + ("" if zmode is None else ".zip"))
+                os.makedirs(os.path.dirname(t), exist_ok=True)
+                if m:
+                    jinja2.Environment(loader=jinja2.DictLoader(m)).compile_templates(t, zip=zmode, log_function=lambda x: None)
+                    targets.append(t)
+            ref_env = jinja2.Environment(loader=jinja2.ChoiceLoader([jinja2.DictLoader(m) for m in maps if m]))
+            mod_env = jinja2.Environment(loader=jinja2.ModuleLoader(targets))
+            for name in names:
+                ref = corpus.outcome(lambda: ref_env.get_template(name).render())
+                got = corpus.outcome(lambda: mod_env.get_template(name).render())
+                p.evals += 1
+                if got != ref:
+                    p.violation("C31/multi-path/" + name, {
+                        "msg": f"zip={zmode} layers {layers} with {dict(zip(names, assign, strict=True))}: ModuleLoader({[os.path.basename(t) for t in targets]}) renders "
+                               f"{name!r} as {got!r}; the source loaders in the same order give {ref!r}",
+                        "script": "print(%r)\n" % {"layers": layers, "present_in": dict(zip(names, assign, strict=True)), "zip": zmode}})
+            p.sig(("multipath", zmode, nlayers, assign[0]))
+            shutil.rmtree(os.path.join(root, f"c{count}"), ignore_errors=True)
+    p.sample({"part": "several compiled paths", "zip": zmode, "layers": list(layer_dirs)}, cap=1)
+    shutil.rmtree(root, ignore_errors=True)
+    return p
+
+
 def dispatch(arg):
+    if arg[0] == "m":
+        return multipath_shard(arg[1])
     if arg[0] == "g":
         return grow_shard(arg[1])
     return shared_shard(arg[1]) if arg[0] == "s" else shard(arg[1])
@@ -230,9 +289,10 @@ def run(ctx: core.Ctx):
     ctx.assumptions += ["ModuleLoader keeps imported modules in sys.modules under a per-loader package name; each case uses a fresh loader and target"]
     n = 64
     shards = [("c", (ctx.tier, k, n)) for k in range(n)]
-    shards += [("s", (z, name)) for z in (None, "stored", "deflated") for name in ("t", "child", "undef", "lib")]
+    shards += [("s", (z, name)) for z in (None, "stored", "deflated") for name in ("t", "child", "undef", "lib", "cnt")]
     gdepth = 4 if ctx.quick else 5
     shards += [("g", (op, gdepth)) for op in GROW_OPS]
+    shards += [("m", z) for z in (None, "stored", "deflated")]
     ctx.pmap(dispatch, shards)
     ctx.cov["growing_set_history_depth"] = gdepth + 0
     ctx.cov["bounds"] = {"corpus": str(corpus.BOUNDS["small" if ctx.quick else "quick"]),
